@@ -19,21 +19,30 @@ Definition plain_keys_of (standins : list string) (tns : nsp) : list string :=
 
 Definition overlap (a b : list string) : bool := existsb (fun x => str_in x b) a.
 
-(* standins  : destinations of the stand-in declarations (= of the generated dataclass options)
+(* read off the forest: are subgroups used; the destinations registered with default=argparse.SUPPRESS *)
+Definition has_subgroups (forest : list wrapper) : bool :=
+  existsb (fun w => existsb f_subgroup (w_all w)) forest.
+Definition sup_top_dests (forest : list wrapper) : list string :=
+  flat_map w_dests (filter w_suppress (top_wrappers forest)).
+
+(* declared  : destinations of the plain declarations (own and parents', set_defaults keys included)
+   standins  : destinations of the stand-in declarations (= of the generated dataclass options)
    tops      : the add_arguments destinations
    sup_tops  : those registered with default=argparse.SUPPRESS (may legitimately be absent)
    has_sg    : subgroups are used *)
-Definition spec_run (standins tops sup_tops : list string) (has_sg : bool)
+Definition spec_run (declared standins tops sup_tops : list string) (has_sg : bool)
            (twin sp : res (nsp * list string)) : bool :=
+  let extra := (tops ++ (if has_sg then ["subgroups"] else []))%list in
+  if overlap declared extra then true                              (* names not disjoint: the property is silent *)
+  else
   match twin, sp with
-  | Err e, Err e' => err_eqb e e'                               (* same reject decision / exit status *)
+  | Err e, Err e' => err_eqb e e'                                  (* same reject decision / exit status *)
   | Err _, Ok _ | Ok _, Err _ => false
   | Ok (tns, tex), Ok (sns, sex) =>
       let pk := plain_keys_of standins tns in
-      let extra := (tops ++ (if has_sg then ["subgroups"] else []))%list in
-      if overlap pk extra then true                               (* names not disjoint: the property is silent *)
+      if overlap pk extra then true                                (* (a pre-populated namespace may collide too) *)
       else
-        strs_same tex sex                                         (* same leftovers *)
+        strs_same tex sex                                          (* same leftovers *)
         && forallb (fun k => opt_nval_eqb (lookup k tns) (lookup k sns)) pk     (* same plain entries *)
         && forallb (fun k => str_in k (pk ++ extra)) (keys sns)                 (* nothing else: no dotted dest leaks *)
         && forallb (fun k => mem k sns)
